@@ -125,6 +125,10 @@ def override(dev, req, frames, d):
         return [bad] + list(frames)
     if place == "after_good":
         return list(frames) + [bad]
+    if place == "twice":
+        return [bad, bad]
+    if place == "bad_bad_good":
+        return [bad, bad] + list(frames)
     return [bad] + list(frames) + [bad]
 
 
